@@ -31,6 +31,18 @@ type Doc struct {
 	Keys    []string
 	Vals    []*Doc
 	lenT    *Term
+	bk      *Backing
+	bgen    int
+}
+
+func (d *Doc) setBacking(bk *Backing, gen int) {
+	d.bk, d.bgen = bk, gen
+	for _, e := range d.Elems {
+		e.setBacking(bk, gen)
+	}
+	for _, e := range d.Vals {
+		e.setBacking(bk, gen)
+	}
 }
 
 func (d *Doc) concrete() bool {
@@ -221,7 +233,17 @@ type BSeg struct {
 	Opq *Term   // unknown bytes of symbolic length (64-bit)
 }
 
+// Backing identifies a reusable byte array (a recycled buffer); gen counts how
+// often it has been overwritten. A blob read from it remembers the generation it
+// saw: reading it after the array was overwritten is a stale-buffer read.
+type Backing struct {
+	id  int
+	gen int
+}
+
 type Blob struct {
+	bk   *Backing
+	bgen int
 	Segs []BSeg
 	// sink: a destination buffer handed to Read(p); the reader deposits into got
 	sink    bool
@@ -261,7 +283,7 @@ func blobBytes(b []byte) *Blob {
 	return &Blob{Segs: []BSeg{{B: b}}}
 }
 
-func blobDoc(d *Doc) *Blob { return &Blob{Segs: []BSeg{{D: d}}} }
+func blobDoc(d *Doc) *Blob { return &Blob{Segs: []BSeg{{D: d}}, bk: d.bk, bgen: d.bgen} }
 
 func (b *Blob) norm() *Blob {
 	var out []BSeg
@@ -317,6 +339,12 @@ func (g *G) asBlob(v Value) *Blob {
 	case *Blob:
 		if x == nil {
 			return &Blob{}
+		}
+		if x.bk != nil && x.bgen != x.bk.gen {
+			r := g.run
+			r.classTags = append(r.classTags, "stale-buffer-read")
+			r.buildViolation(g, "payload-bytes-stable-until-consumed", "a []byte that aliases a recycled buffer was read after the buffer had been overwritten by a later frame: "+g.where())
+			panic(abortRun{})
 		}
 		return x
 	case Slice:
@@ -569,7 +597,7 @@ func (b *Blob) SliceOp(g *G, lo, hi *Int) Value {
 		return blobFromTerms(ts[l:h])
 	}
 	if hi != nil && hi.T == nil && hi.C == 0 && loZero {
-		return &Blob{}
+		return &Blob{bk: b.bk, bgen: b.bgen}
 	}
 	g.inconclusive("slicing an abstract blob")
 	return nil
